@@ -91,12 +91,13 @@ func (k FaultKind) String() string {
 
 // Fault is one scripted action.
 type Fault struct {
-	Kind    FaultKind
-	Payload []byte
-	Code    uint16
-	Msg     string
-	State   string // sqlstate marker ("" = none, else 5 chars)
-	OnReach func() // called in the master's goroutine when the index is reached, before acting
+	Kind     FaultKind
+	Payload  []byte
+	Payload2 []byte // FInject: a second event sent right after Payload
+	Code     uint16
+	Msg      string
+	State    string // sqlstate marker ("" = none, else 5 chars)
+	OnReach  func() // called in the master's goroutine when the index is reached, before acting
 }
 
 // EndKind is what happens after the last stored event.
@@ -657,6 +658,9 @@ func (m *Master) dump(p *pconn, cl *ConnLog, scr *Script, d *DumpReq) {
 				return false
 			case FInject:
 				p.writePacket(append([]byte{0}, flt.Payload...))
+				if flt.Payload2 != nil {
+					p.writePacket(append([]byte{0}, flt.Payload2...))
+				}
 			case FHold:
 				cl.mu.Lock()
 				cl.HoldReached = true
